@@ -41,6 +41,7 @@ struct Scn {
     int tp = TCP;
     bool small = false;
     int tside = 0; // 0: T is the connecting socket, 1: T is the accepted socket
+    bool recv_only_after_cut = false; // after P's death T first does nothing but receive: xcm_receive alone has to report it
     std::vector<Step> steps;
     // mode B
     int cut_kind = 0;   // 0 FIN(shutdown) 1 close 2 close after lifting the budget 3 RST 4 close with unread data (ux)
@@ -454,7 +455,7 @@ struct Exec {
         size_t i = 0;
         for (auto &st : sc.steps) {
             if (!o.ok) break;
-            if (with_cut && i == sc.cut_at) cut();
+            if (with_cut && i == sc.cut_at) { cut(); if (sc.recv_only_after_cut) { o = must_report(o, "by xcm_receive alone, no other call in between"); if (!o.ok) break; } }
             i++;
             if (f.dir >= 0 && sh_io_fault_hits() && !inj_errno) inj_errno = f.err;
             switch (st.kind) {
@@ -475,7 +476,7 @@ struct Exec {
             default: break;
             }
         }
-        if (o.ok && with_cut && sc.cut_at >= sc.steps.size()) cut();
+        if (o.ok && with_cut && sc.cut_at >= sc.steps.size()) { cut(); if (sc.recv_only_after_cut) o = must_report(o, "by xcm_receive alone, no other call in between"); }
         // fixed tail: every kind of call once more on T (and twice receive)
         static const int TAIL[] = {OP_RECV, OP_SEND, OP_FINISH, OP_RECV, OP_FINISH, OP_SEND, OP_RECV};
         if (o.ok && (f.dir >= 0 || with_cut)) {
@@ -485,15 +486,7 @@ struct Exec {
             }
         }
         // the peer is dead (FIN or RST has reached T's kernel socket): xcm_receive has to say so
-        if (o.ok && with_cut && (peer_fin || peer_gone) && term == NONE && !T.closed && (unsent_at_cut == 0 || peer_rst)) {
-            for (int k = 0; k < 60 && o.ok && term == NONE; k++) {
-                o = tcall(OP_RECV, 0, 70000);
-                if (term == NONE) usleep(3000);
-            }
-            if (o.ok && term == NONE)
-                o = failf("C06: the peer %s %zu ms ago, yet xcm_receive on %s keeps reporting EAGAIN instead of the close/failure",
-                          peer_rst ? "reset the connection" : "closed", (size_t)180, tp_name(sc.tp));
-        }
+        if (with_cut) o = must_report(o, "after every kind of call has been made once more");
         if (nsend) *nsend = sh_cnt(T.tag)->send_calls;
         if (nrecv) *nrecv = sh_cnt(T.tag)->recv_calls;
         if (o.ok && term != NONE) o = bystander_check();
@@ -503,6 +496,20 @@ struct Exec {
         sh_fail_io_at(3, SH_SEND, 0, 0); sh_fail_io_at(3, SH_RECV, 0, 0);
         x_close(T);
         x_close(P);
+        return o;
+    }
+    // P is dead and nothing of what it wrote is still on its way: within 180 ms xcm_receive on T
+    // returns what had arrived in full and then the close or the failure - not EAGAIN for ever
+    Outcome must_report(Outcome o, const char *how)
+    {
+        if (!(o.ok && (peer_fin || peer_gone) && term == NONE && !T.closed && (unsent_at_cut == 0 || peer_rst))) return o;
+        for (int k = 0; k < 60 && o.ok && term == NONE; k++) {
+            o = tcall(OP_RECV, 0, 70000);
+            if (term == NONE) usleep(3000);
+        }
+        if (o.ok && term == NONE)
+            o = failf("C06: the peer %s %zu ms ago, yet xcm_receive on %s keeps reporting EAGAIN instead of the close/failure (%s)",
+                      peer_rst ? "reset the connection" : "closed", (size_t)180, tp_name(sc.tp), how);
         return o;
     }
     // btls: a send refused with EAGAIN is retried with the identical buffer
@@ -713,6 +720,8 @@ public:
             }
         }
         sc.cut_at = sc.steps.empty() ? 0 : cutpos % (sc.steps.size() + 1);
+        sc.recv_only_after_cut = (hs >> 3) % 2 == 1;
+        if (sc.recv_only_after_cut) c.cls("B:receive-only-after-the-cut");
         static const char *CK[] = {"FIN", "close", "lift+close", "RST", "close-with-unread"};
         c.cls(std::string("B:cut=") + CK[sc.cut_kind]);
         c.log("%s%s T=%s; P may write %ld bytes%s; P dies before step %zu by %s", tp_name(sc.tp), sc.small ? " small-buffers" : "",
